@@ -981,7 +981,7 @@ reg('C15', run_C15, ['Prop_C15.v'], I6RULE + 'histories: 2-6 parses in a row on 
 
 reg('C19', cliprops.run_C19, ['Prop_C19.v'], 'fault enumeration: one or more failing inputs per kind of input-caused failure (lexical: stray character, unclosed comment, unbalanced action, bad character literal, unclosed prologue; syntax: missing %%, stray number, %type without tag, %prec without symbol; undefined symbol; undefined start symbol; %type without rule; unproductive nonterminal; $n too big / zero / on an empty rule / on an untyped symbol / in a late rule) x {go, go -u, go -o, go -o -u, typescript} through the CLI built from /repo with a pre-existing output file: exit status and bytes afterwards; successful generations over no file and over a longer pre-existing file must be byte-identical and end with the epilogue; FsModel.predict (extracted) is compared with each observation. non-trivial = distinct (fault kind, target)',
     technique='Coq theorem over the step model of the generators (create after every fallible step; create truncates) + fault enumeration through the real CLI with a pre-existing file, compared with the model prediction',
-    level_text='Proved in Coq over FsModel (the step sequence of TemplateGenFromString/TsGenFromString): a failure at any input-caused step leaves every path untouched (C19_atomic); a success leaves exactly the generated text at the output path and touches nothing else (C19_complete); success iff no step fails (C19_success_iff). The tie to the code is a fault enumeration on every run: every kind of input-caused failure x five targets through the real CLI with a pre-existing file (bytes and exit status), plus successful generations over a longer pre-existing file compared byte-for-byte with a fresh generation.',
+    level_text='Proved in Coq over FsModel (the step sequence of TemplateGenFromString/TsGenFromString): a failure at any input-caused step leaves every path untouched (C19_atomic); a success leaves exactly the generated text at the output path and touches nothing else (C19_complete); success iff no step fails (C19_success_iff); on the model of the action substitution the input-caused failures inside actions (value of an untyped left-hand side, references out of range or to untyped symbols) stop the generation in the reduce-function step, i.e. before the file is created (C19_untyped_self_stops, C16_action_reference). The tie to the code is a fault enumeration on every run: every kind of input-caused failure x five targets through the real CLI with a pre-existing file (bytes and exit status), the model of the substitution must stop exactly on the action faults, plus successful generations over a longer pre-existing file compared byte-for-byte with a fresh generation.',
     level_note=MODEL_NOTE + ' os.Create/Write failures (permissions, disk full) are not input-caused and not modelled. TooManyStates (>2000 states) is not in the fault list.')
 reg('C14', cliprops.run_C14, ['Prop_C14.v'], 'repeated runs: every corpus grammar (curated families, seeded random grammars with many auto-numbered tokens / many states / nullable cycles / precedences, operator tables, a hand-written includes-cycle grammar, the repo examples) x {go, go -u, go -o, go -o -u, typescript} is generated N times (quick 6, thorough 40) by the CLI built from /repo in separate processes (Go re-randomises map iteration per process and per range statement); outputs compared byte for byte. non-trivial = distinct (grammar, target) that generate successfully',
     technique='Coq theorems (sorting removes dependence on iteration order; table generation depends on lookahead sets only as sets; identifier table order irrelevant after sorting) + N repeated CLI runs per grammar and option set in separate processes + sequences of generations inside one process, all compared byte for byte',
@@ -1006,8 +1006,8 @@ reg('C12', frontprops.run_C12, ['Prop_C12.v'], 'seeded random usable grammars wi
     level_note=MODEL_NOTE + ' The 2000-state limit is outside the checked range.')
 
 reg('C16', genprops.run_C16, ['Prop_C16.v'], 'grammars: curated families, one grammar per group of literal characters covering every printable special character (quotes, backslash-free, %, $, braces, bar, space, backquote), seeded random grammars (operator tables, many literals, long rules and many alternatives, empty rules, precedences), declaration mixes; actions drawn from a pool that uses $$ and $n with typed symbols and contains %, format strings, block and line comments, strings with braces and quotes, raw strings, nested blocks; minimal prologue (package + import fmt / "use strict") and epilogue (GetToken). Every output path holds a longer, older file before generation (regenerate in place). Every file the CLI built from /repo reports as generated is compiled: the four Go variants as packages of one module through `go vet` (type check) and `go build`, the TypeScript variant loaded by node >= 22 with type stripping. non-trivial = (grammar, variant) pairs that the generator accepted',
-    technique='Coq theorems on the text fragments the builder pastes (rule comment cannot be closed by action text; translate case labels distinct) + go vet/go build/node on every generated file of a corpus stressing names, literals, actions and rule shapes',
-    level_text='Proved in Coq: the rule comment built from any action text contains no comment terminator and shows terminator-free text unchanged (C16_comment_safe, C16_comment_faithful); the case labels of translate are pairwise distinct when the code table passes the verified checker (C16_translate_cases_distinct). Acceptance of the whole file by the Go type checker / a JavaScript engine is runtime behaviour no Coq model exhibits (partial): it is decided on every run by compiling every generated file of the corpus in all five variants; compiler diagnostics are the failing evidence.',
+    technique='Coq theorems on the text fragments the builder pastes (rule comment cannot be closed by action text; translate case labels distinct; the action substitution pastes dollar-free text unchanged and emits for a reference exactly the field of that symbol) + model of the action substitution against the emitted code of every action + go vet/go build/node on every generated file of a corpus stressing names, literals, actions and rule shapes',
+    level_text="Proved in Coq: the rule comment built from any action text contains no comment terminator and shows terminator-free text unchanged (C16_comment_safe, C16_comment_faithful); the case labels of translate are pairwise distinct when the code table passes the verified checker (C16_translate_cases_distinct); the model of actionCodeReplace pastes an action without dollar signs unchanged and emits for $n exactly `Dollar[n].<tag of symbol n>` when n is in range and typed, stopping the generation otherwise (C16_action_plain, C16_action_reference, C16_action_example). Acceptance of the whole file by the Go type checker / a JavaScript engine is runtime behaviour no Coq model exhibits (partial): it is decided on every run by compiling every generated file of the corpus in all five variants; compiler diagnostics are the failing evidence. On every run the code emitted for every action of the corpus (default Go variant and TypeScript) is compared with the model of the substitution run on the implementation's own action text and tags; every output path holds a longer older file before generation.",
     level_note=MODEL_NOTE + ' go vet/go build and node (type stripping, no type check: no tsc in the sandbox) are trusted for the verdict on each file. Guard: token names are identifiers of the target language that are not keywords or template names.')
 reg('C17', genprops.run_C17, ['Prop_C17.v'], I6RULE + 'trace jobs: sentences and short strings run with IsTrace = true in the four Go variants; every printed line is parsed and the printed run is replayed on the implementation\'s own GTable (token read, state pushed, lookahead, rule text from the grammar, goto state, goto push after every reduction), the printed reductions are compared with those the actions recorded in the same run, and the run must be traced up to the accept or error cell. non-trivial = traced runs with at least one reduction',
     technique='Coq theorems on the traced LR machine (printed reductions = performed reductions; the printed run replays on the table) + replay of every real trace on the implementation\'s own table',
